@@ -67,21 +67,8 @@ func configs(quick bool) []Cfg {
 	if quick {
 		return []Cfg{dev, itv, fund, fundBase, non, nog, mix}
 	}
-	// thorough: larger alphabets, deeper, and the soft/hard/interval variants of the design
+	// thorough: larger alphabets, deeper, and the soft/hard/interval variants of the design;
 	// cheap configurations first, so that an internal time cap cuts the large ones only
-	for _, b := range []int64{0, tssTotal - 1, tssTotal, 3 * tssTotal} {
-		for _, iv := range []uint64{2, 4} {
-			c := fund
-			c.Name = "funds" + variant([4]uint64{uint64(b), iv, 0, 0})
-			c.Tunnels = []TunnelCfg{{Route: "tss", Signals: sigs(100, 300, 300, 300), Interval: iv, Balance: b}}
-			c.Tokens = [][]string{{"100", "103", "105"}, {"100", "m"}}
-			c.Depth = 8
-			out = append(out, c)
-		}
-	}
-	fb := fundBase
-	fb.Depth = 8
-	out = append(out, fb)
 	n2 := non
 	n2.Tokens = [][]string{{"100", "105", "m"}, {"100", "101"}}
 	n2.Depth = 8
@@ -98,15 +85,31 @@ func configs(quick bool) []Cfg {
 	out = append(out, g2)
 	m2 := mix
 	m2.Tokens = [][]string{{"100", "103", "105", "m"}, {"m", "100", "101"}}
-	m2.Depth = 7
+	m2.Depth = 6
 	out = append(out, m2)
-	for _, sh := range [][4]uint64{{100, 300, 300, 300}, {300, 300, 100, 300}, {100, 300, 100, 300}} {
+	fb := fundBase
+	fb.Depth = 7
+	out = append(out, fb)
+	for _, b := range []int64{0, tssTotal - 1, tssTotal, 3 * tssTotal} {
+		for _, iv := range []uint64{2, 4} {
+			c := fund
+			c.Name = "funds" + variant([4]uint64{uint64(b), iv, 0, 0})
+			c.Tunnels = []TunnelCfg{{Route: "tss", Signals: sigs(100, 300, 300, 300), Interval: iv, Balance: b}}
+			c.Tokens = [][]string{{"100", "103", "105"}, {"100"}}
+			c.Depth = 7
+			out = append(out, c)
+		}
+	}
+	for i, sh := range [][4]uint64{{100, 300, 300, 300}, {300, 300, 100, 300}, {100, 300, 100, 300}} {
 		d := dev
 		d.Name = "deviation" + variant(sh)
 		d.Tunnels = []TunnelCfg{{Route: "tss", Signals: sigs(sh[0], sh[1], sh[2], sh[3]), Interval: 3600, Balance: 40 * tssTotal}}
 		d.InitDE = 20
 		d.Tokens = [][]string{{"m", "0", "100", "101", "102", "103", "105", "120", "100n", "0n"}, {"m", "100", "101", "102", "103", "120"}}
-		d.Depth = 7
+		d.Depth = 6
+		if i == 0 {
+			d.Depth = 7
+		}
 		out = append(out, d)
 	}
 	for _, iv := range [][2]uint64{{2, 4}, {4, 2}, {2, 2}} {
@@ -117,7 +120,7 @@ func configs(quick bool) []Cfg {
 			{Route: "tss", Signals: sigs(300, 300, 100, 300), Interval: iv[1], Balance: 20 * tssTotal}}
 		c.InitDE = 24
 		c.Tokens = [][]string{{"100", "101", "105"}, {"100", "101", "m"}}
-		c.Depth = 8
+		c.Depth = 7
 		out = append(out, c)
 	}
 	return out
